@@ -3,25 +3,29 @@
 (* LoaderRepo!Next.  Every trace brings its own scenario (file system,        *)
 (* provider kind, session); the steps of the module that the harness cannot   *)
 (* observe are silent.  Many traces per TLC run (tid chosen in TraceInit);    *)
-(* register tid keeps the furthest event index reached; a trace is accepted   *)
+(* register 3 + tid keeps the furthest event index reached; a trace is accepted   *)
 (* iff all its events were consumed.                                          *)
 (* Events (DESIGN.md Appendix C, the observable part):                        *)
 (*   LoadBegin{file} Repair Open{file} ModelProc{file} ObjProc{file}          *)
 (*   LoadEnd{res, grepo, incl, local, opens, params, tg}  (= LoadEnd + Post)  *)
 EXTENDS LoaderRepo, IOUtils
 
-Traces   == JsonDeserialize(IOEnv.VT_TRACES)     \* Seq of [sc, events]
-TDevSets == {Range(JsonDeserialize(IOEnv.VT_DEVS))}
-TNone    == {}
+\* registers: 1 the traces (Seq of [sc, events]), 2 their number, 3 + t the furthest event index reached in trace t, 3 + NT + t the
+\* deviation clauses used by a behaviour that got there
+ASSUME LET T == JsonDeserialize(IOEnv.VT_TRACES) IN
+         /\ TLCSet(1, T) /\ TLCSet(2, Len(T)) /\ TLCSet(3, 0)
+         /\ \A t \in 1..Len(T) : TLCSet(3 + t, 0) /\ TLCSet(3 + Len(T) + t, {})
+Traces   == TLCGet(1)
+NT       == TLCGet(2)
+TScSeq   == <<>>
+TListed  == Range(JsonDeserialize(IOEnv.VT_DEVS))   \* clauses that may explain a trace
+TForce   == FALSE
 
-VARIABLES tid, l
+VARIABLES tid,                 \* the trace this behaviour follows
+          l                    \* number of its events consumed so far
 tvars == <<vars, tid, l>>
 
-ASSUME \A t \in 1..Len(Traces) : TLCSet(t, 0)
-
-TraceInit == /\ tid \in 1..Len(Traces) /\ l = 0
-             /\ sc = Traces[tid].sc
-             /\ InitRest
+TraceInit == tid \in 1..NT /\ l = 0 /\ sc = Traces[tid].sc /\ InitRest
 
 Ev(k) == Traces[tid].events[k]
 Has(k) == k <= Len(Traces[tid].events)
@@ -43,7 +47,7 @@ EndMatches(k) == Is(k, "LoadEnd") /\ Matches(Ev(k), hist'[Len(hist')])
 
 Silent ==
   /\ \/ CheckParams /\ ~Finished
-     \/ CacheStep \/ SkipOpen \/ Parse \/ Register \/ ImportNext \/ ImportGlobPick \/ ImportsDone
+     \/ CacheStep \/ SkipOpen \/ Parse \/ Register \/ ImportNext \/ ImportGlobHits \/ ImportGlobPick \/ ImportsDone
      \/ Resolve \/ ObjProcsDone
      \/ \E m \in DOMAIN models : ObjProcs(m) /\ models[m].defs = <<>>
   /\ l' = l
@@ -65,8 +69,9 @@ TraceNext == (Silent \/ Observed) /\ tid' = tid
 
 TraceSpec == TraceInit /\ [][TraceNext]_tvars
 
-Progress == TLCSet(tid, IF l > TLCGet(tid) THEN l ELSE TLCGet(tid))
+Progress == IF l > TLCGet(3 + tid) THEN TLCSet(3 + tid, l) /\ TLCSet(3 + NT + tid, dev) ELSE TRUE
 
-Report == \A t \in 1..Len(Traces) :
-            PrintT("TRACE|" \o ToJson([tid |-> t, reached |-> TLCGet(t), len |-> Len(Traces[t].events)]))
+Report == \A t \in 1..NT :
+            PrintT("TRACE|" \o ToJson([tid |-> t, reached |-> TLCGet(3 + t), len |-> Len(Traces[t].events),
+                                       dev |-> TLCGet(3 + NT + t)]))
 =============================================================================
